@@ -333,15 +333,16 @@ func (res *Response) ReadFrom(r io.Reader) (n int64, err error) {
 	}
 
 	if !res.Parser.Engine.DisableSendfile {
+		src := r
 		lr, ok := r.(*io.LimitedReader)
 		if ok {
-			n, r = lr.N, lr.R
+			n, src = lr.N, lr.R
 			if n <= 0 {
 				return 0, nil
 			}
 		}
 
-		f, ok := r.(*os.File)
+		f, ok := src.(*os.File)
 		if ok {
 			rc := c
 			if hc, ok := c.(*Conn); ok {
